@@ -8,10 +8,10 @@ import (
 	"os"
 	"os/exec"
 	"path/filepath"
-	"strings"
-	"sync"
 	"runtime/debug"
 	"strconv"
+	"strings"
+	"sync"
 	"time"
 
 	"verif/internal/core"
